@@ -47,6 +47,16 @@ func sel(msg *capnp.Message, s string) (capnp.Ptr, error) {
 	if err != nil || s == "r" {
 		return p, err
 	}
+	if s[0] == 'm' { // m<i>.<j>: element j (struct view) of the list in pointer field i
+		f := strings.SplitN(s[1:], ".", 2)
+		i, _ := strconv.Atoi(f[0])
+		j, _ := strconv.Atoi(f[1])
+		fp, err := p.Struct().Ptr(uint16(i))
+		if err != nil {
+			return capnp.Ptr{}, err
+		}
+		return fp.List().Struct(j).ToPtr(), nil
+	}
 	i, _ := strconv.Atoi(s[1:])
 	return p.Struct().Ptr(uint16(i))
 }
@@ -384,7 +394,7 @@ func run(out *Out, r *Rand, tier string, replay []string) {
 		g := &vt.Gen{R: r, Budget: 6 + r.Intn(30), Caps: r.Intn(8) == 0}
 		gid++
 		group := "g" + strconv.Itoa(gid)
-		switch r.Pick(10, 4, 3) {
+		switch r.Pick(10, 4, 3, 3) {
 		case 0: // one value, several layouts and schema versions (trailing default fields)
 			v := g.Struct(1 + r.Intn(4))
 			k := 2 + r.Intn(3)
@@ -420,6 +430,25 @@ func run(out *Out, r *Rand, tier string, replay []string) {
 				}
 				emit("lists/"+h, group, &rd.Msg{Segs: segs, Arena: "M"}, "r")
 			}
+		case 2: // a list member as the struct to canonicalise: List.Struct(j) of every list kind
+			ln := 1 + r.Intn(6)
+			root := &vt.Val{K: vt.KStruct, Data: make([]byte, 8*r.Intn(2))}
+			nf := 1 + r.Intn(3)
+			for f := nf; f > 0; f-- {
+				root.Ptrs = append(root.Ptrs, vt.ListShape(r, g, ln))
+			}
+			segs, h, ok := vt.Encode(r, []int{0, 3}[r.Intn(2)], root)
+			if !ok {
+				continue
+			}
+			for f, l := range root.Ptrs {
+				cnt := len(l.Prims) + len(l.Elems) + len(l.Bits)
+				if cnt == 0 {
+					continue
+				}
+				gid++
+				emit("members/"+h, "g"+strconv.Itoa(gid), &rd.Msg{Segs: segs, Arena: "M"}, fmt.Sprintf("m%d.%d", f, r.Intn(cnt)))
+			}
 		default: // malformed
 			var segs [][]byte
 			switch r.Intn(3) {
@@ -441,5 +470,5 @@ func run(out *Out, r *Rand, tier string, replay []string) {
 			emit("malformed", group, m, "r")
 		}
 	}
-	out.Close("groups of layouts of one generated value (library builder in random arenas, hand-assembled words with pre/post order, gaps, far/double-far pointers, oversized sections, dirty padding; deep copy; re-marshal) and of its schema-evolved variants (trailing default fields); targeted list shapes (all list kinds, struct lists with and without pointers, zero-sized structs, nested lists); values containing capabilities; malformed segments and tight limits; all source segments have cap == len. non-trivial = the walked tree is complete, so the canonical-form specification predicts the bytes")
+	out.Close("groups of layouts of one generated value (library builder in random arenas, hand-assembled words with pre/post order, gaps, far/double-far pointers, oversized sections, dirty padding; deep copy; re-marshal) and of its schema-evolved variants (trailing default fields); list members as the canonicalised struct (List.Struct(j) of void / 1,2,4,8-byte / pointer / struct / bit lists); targeted list shapes (all list kinds, struct lists with and without pointers, zero-sized structs, nested lists); values containing capabilities; malformed segments and tight limits; all source segments have cap == len. non-trivial = the walked tree is complete, so the canonical-form specification predicts the bytes")
 }
